@@ -17,3 +17,4 @@ pub mod manager;
 pub mod mrt_import;
 pub mod ribquery;
 pub mod http;
+pub mod filter;
